@@ -50,6 +50,7 @@ from happysimulator.distributions.latency_distribution import LatencyDistributio
 
 from hsverif.probe import EngineProbe, quiet_library_logging  # noqa: E402
 
+import zlib
 import random as _random  # noqa: E402
 
 
@@ -477,7 +478,14 @@ def _one_run(case: dict, faults: list, shared: dict) -> dict:
                 )
             )
         else:
-            pre.append(Event(time=Instant(w["t"]), event_type="req", target=tgt, context={"metadata": md}))
+            # Round 8: a quarter of the directly scheduled requests to plain nodes are daemon events (heartbeat / timer
+            # style work that does not keep a run alive).  A crashed or paused target executes nothing whatever the flag
+            # (C06-r8-1: Event.invoke let daemon events through to a crashed target); the horizon is finite, so the flag
+            # changes nothing else.
+            dm = w.get("daemon")
+            if dm is None:
+                dm = w["to"] not in queued and zlib.crc32(repr((w["id"], w["t"])).encode()) % 4 == 0
+            pre.append(Event(time=Instant(w["t"]), event_type="req", target=tgt, daemon=bool(dm), context={"metadata": md}))
         if w["to"] in queued:
             q = queued[w["to"]]
             rec = [w["id"], w["t"], None, None]
